@@ -200,7 +200,7 @@ func main() {
 		}
 	}
 	fovc.Discharge(real, fovc.SolverCfg{TimeoutS: timeout, WorkDir: *dump, Seed: seed, Cross: *tier == "thorough", Workers: 5, Retries: 2})
-	fovc.Discharge(covers, fovc.SolverCfg{TimeoutS: 2, Seed: seed, Workers: 5})
+	fovc.Discharge(covers, fovc.SolverCfg{TimeoutS: 1, Seed: seed, Workers: 8})
 	if *only == "" {
 		for _, s := range cfg.Scans {
 			s(r)
